@@ -12,12 +12,13 @@ package piecerequest
 
 //@ lockinv Manager.RWMutex self m guards contents requests, contents requestsByPeer, allmem *Request, allmaps map[int]*Request, type Request
 //@   invariant slices_ok: forall i int :: i in m.requests ==> rowok(m, i)
+//@   invariant by_peer_ok: forall p core.PeerID :: p in m.requestsByPeer ==> m.requestsByPeer[p] != nil && allocated(m.requestsByPeer[p]) && (forall k int :: k in m.requestsByPeer[p] ==> m.requestsByPeer[p][k] != nil && allocated(m.requestsByPeer[p][k]))
 
 //@ specfunc mshape(m *Manager) bool = m != nil && m.requests != nil && m.requestsByPeer != nil
 
 // validRequest runs with the manager lock held by ReservePieces.
 //@ func Manager.validRequest
-//@   requires mshape(m)
+//@   requires mshape(m) && m.clock != nil
 //@   requires forall j int :: 0 <= j && j < len(m.requests[pieceIdx]) ==> m.requests[pieceIdx][j] != nil
 //@   modifies m.clock.now
 //@   ensures sound: result ==> (forall j int :: 0 <= j && j < len(m.requests[pieceIdx]) ==> !rblocks(m, m.requests[pieceIdx][j], peerID, allowDuplicates))
@@ -70,3 +71,43 @@ package piecerequest
 //@   ensures others_by_piece: forall k int :: k != i ==> ((k in m.requests) <==> old(k in m.requests)) && m.requests[k] == old(m.requests[k])
 //@   loop 0 invariant gone: !(i in m.requests) && (forall k int :: k != i ==> ((k in m.requests) <==> old(k in m.requests)) && m.requests[k] == old(m.requests[k]))
 //@   loop 0 invariant done: forall p core.PeerID :: seen0(p) && p in m.requestsByPeer ==> !(i in m.requestsByPeer[p])
+//@   loop 0 invariant by_peer_ok: forall p core.PeerID :: p in m.requestsByPeer ==> m.requestsByPeer[p] != nil && allocated(m.requestsByPeer[p]) && (forall k int :: k in m.requestsByPeer[p] ==> m.requestsByPeer[p][k] != nil && allocated(m.requestsByPeer[p][k]))
+
+// ---- the pipeline limit --------------------------------------------------------------------------
+// requestQuota is the room left in a peer's pipeline: the limit minus the peer's unexpired pending
+// requests, never below 0. The count is pinned at both ends (an exact count in between would need a
+// recursive spec function): a peer whose indexed requests are all unexpired and at least as many as
+// the limit gets no quota - so it is never asked for more than the limit -, and a peer with no
+// unexpired request gets the whole limit. "Unexpired" is rlive: pending and not past sentAt+timeout
+// on the manager's clock (a request is still unexpired at the instant sentAt+timeout, as in
+// validRequest and GetFailedRequests).
+//@ specfunc qlim(m *Manager, origin bool) int = (origin ? m.originPipelineLimit : m.agentPipelineLimit)
+//@ func Manager.expired
+//@   requires m != nil && m.clock != nil && r != nil
+//@   modifies m.clock.now
+//@   ensures result <==> m.clock.now > r.sentAt + m.timeout
+//@   ensures clock: m.clock.now >= old(m.clock.now)
+
+//@ func Manager.requestQuota
+//@   requires mshape(m) && m.clock != nil && m.agentPipelineLimit >= 1 && m.originPipelineLimit >= 1 && m.timeout >= 0
+//@   requires forall p core.PeerID :: p in m.requestsByPeer ==> m.requestsByPeer[p] != nil && allocated(m.requestsByPeer[p]) && (forall k int :: k in m.requestsByPeer[p] ==> m.requestsByPeer[p][k] != nil && allocated(m.requestsByPeer[p][k]))
+//@   modifies m.clock.now
+//@   ensures bounds: 0 <= result && result <= qlim(m, isPeerOrigin)
+//@   ensures full_pipeline: (peerID in m.requestsByPeer) && len(m.requestsByPeer[peerID]) >= qlim(m, isPeerOrigin) && (forall k int :: k in m.requestsByPeer[peerID] ==> rlive(m, m.requestsByPeer[peerID][k])) ==> result == 0
+//@   ensures idle_peer: (!(peerID in m.requestsByPeer) || (forall k int :: k in m.requestsByPeer[peerID] ==> !old(rlive(m, m.requestsByPeer[peerID][k])))) ==> result == qlim(m, isPeerOrigin)
+//@   ensures clock: m.clock.now >= old(m.clock.now)
+//@   loop 0 invariant q: 1 <= quota && quota <= qlim(m, isPeerOrigin) && pm == m.requestsByPeer[peerID] && (peerID in m.requestsByPeer)
+//@   loop 0 invariant all_so_far: (forall k int :: seen0(k) ==> rlive(m, pm[k])) ==> quota == qlim(m, isPeerOrigin) - nseen0
+//@   loop 0 invariant none_so_far: (forall k int :: seen0(k) ==> !old(rlive(m, pm[k]))) ==> quota == qlim(m, isPeerOrigin)
+//@   loop 0 invariant clock: m.clock.now >= old(m.clock.now)
+
+// ReservePieces never hands a peer more pieces than its pipeline limit, and hands nothing to a peer
+// whose pipeline is full of unexpired requests.
+//@ func Manager.ReservePieces
+//@   requires mshape(m) && m.clock != nil && m.policy != nil && m.agentPipelineLimit >= 1 && m.originPipelineLimit >= 1 && m.timeout >= 0
+//@   modifies *
+//@   ensures within_limit: result1 == nil ==> len(result0) <= qlim(m, isPeerOrigin)
+//@   assert room_left: at pieceSelectionPolicy.selectPieces#0 :: 1 <= quota && quota <= qlim(m, isPeerOrigin)
+//@   loop 0 invariant shape: mshape(m) && m.clock != nil && 0 - 1 <= rangeindex && rangeindex < len(pieces)
+//@   loop 0 invariant rows: forall i2 int :: i2 in m.requests ==> rowok(m, i2)
+//@   loop 0 invariant by_peer_ok: forall p core.PeerID :: p in m.requestsByPeer ==> m.requestsByPeer[p] != nil && allocated(m.requestsByPeer[p]) && (forall k int :: k in m.requestsByPeer[p] ==> m.requestsByPeer[p][k] != nil && allocated(m.requestsByPeer[p][k]))
